@@ -27,7 +27,7 @@ PID = "C21"
 SIZES = ((64, 64), (66, 66), (70, 90), (144, 112))
 ENV = {"ASAN_OPTIONS": "detect_leaks=0:halt_on_error=1:exitcode=77:allocator_may_return_null=1:detect_stack_use_after_return=0:symbolize=1",
        "UBSAN_OPTIONS": "print_stacktrace=0:halt_on_error=0"}
-STRIDES_Q = (0, 1, 2, 16, 64)
+STRIDES_Q = (0, 1, 16, 64)            # quick; thorough adds 2 and the large ones
 STRIDES_T = (0, 1, 2, 16, 64, 68, 137, 1000)   # beyond the library's 68-sample border, beyond a whole internal row, many rows
 PADS = (0, 255, 256)
 LIFETIMES = ("keep", "scribble", "free")
@@ -165,14 +165,13 @@ def deviation_class(v):
 
 def group_items(gl, base, vs):
     """all sessions of one group: every variant in its build, plus the ASan-build baseline"""
-    items = []
+    a = dict(base)
+    a.update({"stride_extra": 0, "padbyte": 0, "lifetime": "keep"})
+    items = [("%s/asan-baseline" % gl, a, "asan")]   # baselines first: a deadline in the middle of a group leaves them available
     for v in vs:
         a = dict(base)
         a.update(v)
         items.append(("%s/stride_extra=%d,padbyte=%d,lifetime=%s" % (gl, v["stride_extra"], v["padbyte"], v["lifetime"]), a, build_of(a)))
-    a = dict(base)
-    a.update({"stride_extra": 0, "padbyte": 0, "lifetime": "keep"})
-    items.append(("%s/asan-baseline" % gl, a, "asan"))
     return items
 
 
@@ -211,8 +210,8 @@ def run(tier):
                              "AddressSanitizer %s (%s) in %s during/after svt_av1_enc_send_picture [%s]\n%s"
                              % (kind, acc, fn, label, o.get("asan_text", "")[:900]), {"part": "A", "args": a, "label": label, "build": build})
         if not ref or ref[0][2]["status"] != "ok":
-            if ref and len(notok) < 30:
-                notok.append("baseline %s: %s" % (ref[0][2]["status"], gl))
+            if len(notok) < 30:
+                notok.append("baseline %s: %s" % (ref[0][2]["status"] if ref else "not run", gl))
             continue
         groups_done += 1
         robs = ref[0][2]["obs"]
